@@ -1025,7 +1025,10 @@ pub fn tree_exhaustive<W: Wt>(ctx: &Ctx, depth: usize) {
                 x /= k;
             }
             let mut hs = HistStats::default();
-            total.fetch_add(1, Ordering::Relaxed);
+            let t = total.fetch_add(1, Ordering::Relaxed);
+            if t == 12345 {
+                ctx.sample(t, || json!({"type": W::NAME, "exhaustive_history": ops.iter().map(op_show).collect::<Vec<_>>()}));
+            }
             if let Some((sym, msg)) = run_history::<W>(&ops, &mut hs) {
                 report_tree::<W>(ctx, ops, &sym, msg);
             }
@@ -1099,7 +1102,10 @@ pub fn tree_random<W: Wt>(ctx: &Ctx, cases: u32, maxops: usize) {
     let agg = [AtomicU64::new(0), AtomicU64::new(0), AtomicU64::new(0), AtomicU64::new(0), AtomicU64::new(0)];
     let strat = proptest::collection::vec(op_strategy::<W>(), 1..maxops);
     let res = crate::pt::search(seed, cases, strat, |ops| {
-        evals.fetch_add(1, Ordering::Relaxed);
+        let k = evals.fetch_add(1, Ordering::Relaxed);
+        if k < 2 || k == 97 {
+            ctx.sample(hseed(&[seed, k]), || json!({"type": W::NAME, "history": ops.iter().take(40).map(op_show).collect::<Vec<_>>(), "ops": ops.len()}));
+        }
         let mut hs = HistStats::default();
         let r = run_history::<W>(ops, &mut hs);
         if hist_nontrivial(&hs) {
